@@ -29,8 +29,13 @@ class Ctx:
                     self.F.bodies[q] = nb
         # `ITER.filter(closure)` in a kernel candidate is rewritten into the equivalent loop-with-if form first
         self.F.desugared = {}
+        from .normalize import forward_result_var
         for q, b in list(self.F.bodies.items()):
             if b['kind'] != 'Closure' and _k.kernel_params(self.F, b) is not None:
+                fb = forward_result_var(self.F, b)
+                if fb is not None:
+                    fb['_facts'] = self.F
+                    self.F.bodies[q] = b = fb
                 nb = normalize(self.F, b)
                 if nb is not None:
                     self.F.bodies[q] = nb
@@ -39,6 +44,10 @@ class Ctx:
             self.F, lambda b: _k.kernel_params(self.F, b) is not None or
             (b.get('impl_self_q', '').endswith('::node::Node') and not b.get('impl_trait') and b.get('name') in ('connect', 'try_connect', 'disconnect', 'isolate')) or
             (b.get('impl_trait') in ('serde::de::Visitor', 'serde::Deserialize')) or
+            # node / path iterators and every inherent method of Node: a private constructor / accessor helper shared by them
+            # (`fn edge_to(&self, entry) -> Edge`) is part of each of its callers
+            (b.get('impl_trait') == 'std::iter::Iterator' and b.get('name') == 'next') or
+            (b.get('impl_self_q', '').endswith('::node::Node') and not b.get('impl_trait')) or
             # public methods of the search builders (entry points): their private non-kernel helpers are part of them
             ('::node::algo::' in (b.get('impl_self_q') or '') and (b.get('impl_self_q') or '').split('::')[-1] in ('Bfs', 'Dfs', 'Pfs', 'Order') and not b.get('impl_trait') and
              (self.F.fns.get(b['q'], {}).get('vis') == 'Public' or self.F.fns.get(b['q'], {}).get('reach'))),
